@@ -239,7 +239,9 @@ func checkC04Inner(c CaseC04, mp *vkit.Meta) *vkit.Failure {
 		var altOK *gkit.RefResult // stream mode may also end like the fault-free run (unread failing stream)
 		if fn := gkit.FaultNode(c.Spec); fn != nil && fn.Fault == "streamerr" && want == "fault" {
 			must, nf := gkit.StreamFaultExpectation(c.Spec, in, gkit.RefOpts{})
-			if !must && !nf.Ambiguous && baseClass(nf.Fail) != "merge" {
+			// the error item is delivered when (and if) the stream is read: the run may end like the fault-free run
+			// when nothing needs the stream, and, when the fault-free run fails by itself, that failure may come first
+			if (!must || nf.Fail != "") && !nf.Ambiguous && baseClass(nf.Fail) != "merge" {
 				altOK = nf
 			}
 			if nf.Ambiguous || baseClass(nf.Fail) == "merge" {
